@@ -511,6 +511,38 @@ int main(int argc, char ** argv)
     }
   });
 
+  // ---------------- residuals with a restricted domain: trial points outside it evaluate to NaN and must be rejected
+  rep.run_stream("restricted_domain", NQ(rep, 300, 8000), [&](Rng & r, long i) {
+    Opt opt = gen_opt(r);
+    if (opt.max_iter < 5) opt.max_iter = 100;
+    auto nodist = [](const auto &...) { return -1.0; };
+    if (i % 2 == 0) {
+      // r(x) = log(x) + c: the Gauss-Newton step from x0 > e^(1-c) overshoots to negative x
+      const double c = r.range(0.5, 3);
+      auto f = [c](const Eigen::Matrix<double, 1, 1> & x) -> Eigen::Matrix<double, 1, 1> { return Eigen::Matrix<double, 1, 1>(std::log(x(0)) + c); };
+      Eigen::Matrix<double, 1, 1> x0(r.loguni(0.05, 50));
+      auto det0 = [&]() { return JObj().num("c", c).num("x0", x0(0)).done(); };
+      rep.note_input(hash_bytes(&c, sizeof c, Report::hash_vec(x0)), true);
+      const std::tuple<Eigen::Matrix<double, 1, 1>> t0{x0};
+      if (i % 4 == 0) monitor<DT::Numerical>(rep, "log_root", "numerical", f, t0, opt, 5, nodist, false, det0);
+      else monitor<DT::Default>(rep, "log_root", "default_no_jacobian", f, t0, opt, 5, nodist, false, det0);
+    } else {
+      // y = sqrt(a + b t): outside {a + b t >= 0} the model is NaN
+      const int m = 6 + r.below(10);
+      const double a = 1 + r.uni(), b = 0.2 + r.uni();
+      Eigen::VectorXd t = Eigen::VectorXd::LinSpaced(m, 0, 4), y(m);
+      for (int k = 0; k < m; ++k) y(k) = std::sqrt(a + b * t(k));
+      auto f = [&](const Eigen::Vector2d & th) -> Eigen::VectorXd { return ((th(0) + th(1) * t.array()).sqrt() - y.array()).matrix(); };
+      const Eigen::Vector2d x0(r.loguni(1, 60), r.coin() ? -r.loguni(0.1, 5) : r.loguni(0.1, 5));
+      auto det0 = [&]() { return JObj().num("a", a).num("b", b).integer("m", m).raw("x0", hexv(x0)).done(); };
+      rep.note_input(Report::hash_vec(x0, Report::hash_vec(y)), true);
+      const std::tuple<Eigen::Vector2d> t0{x0};
+      // the start itself must be inside the domain
+      if (!f(x0).allFinite()) return;
+      monitor<DT::Numerical>(rep, "sqrt_fit", "numerical", f, t0, opt, 10, nodist, false, det0);
+    }
+  });
+
   rep.write();
   return 0;
 }
